@@ -124,6 +124,14 @@ func directedHistories() map[string]History {
 		blk(tx(MsgSpec{Kind: "removepending", Sender: adminID, Val: 4})), blk(tx(sp(adminID, 6, 2*M, true))), blk(tx(MsgSpec{Kind: "removepending", Sender: adminID, Val: 3}))}, empty(2, 1))}
 	// a request for the power the validator already has, with a token amount that is not a multiple of 10^6
 	out["S18-same-power-other-tokens"] = History{g3, cat(empty(2, 1), []BlockSpec{blk(tx(sp(adminID, 0, 10*M+500_000, true)))}, []BlockSpec{blk(tx(sp(adminID, 1, 12*M+500_000, true)))}, []BlockSpec{blk(tx(sp(adminID, 1, 12*M+700_000, true)))}, empty(2, 1))}
+	// an application below a minimum commission that is raised while it is pending, then admitted
+	low := createMsg(3, 3)
+	low.Rate, low.MaxRate = mulFrac(1, 10), mulFrac(5, 10)
+	out["S19-minimum-raised-over-a-pending-application"] = History{g3, cat(empty(2, 1), []BlockSpec{blk(tx(low)), blk(tx(MsgSpec{Kind: "params", Sender: adminID, Params: &minc})), blk(tx(sp(adminID, 3, 2*M, true)))}, empty(3, 1))}
+	// a chain whose bond denom is not "stake"
+	gd := defaultGenesis()
+	gd.Denom = "upoa"
+	out["S20-custom-bond-denom"] = History{gd, cat(empty(2, 1), []BlockSpec{blk(tx(sp(adminID, 0, 12*M, false))), blk(tx(sp(adminID, 0, 11*M, false))), blk(tx(createMsg(3, 3))), blk(tx(sp(adminID, 3, 2*M, true))), blk(tx(rm(adminID, 1)))}, empty(3, 1))}
 	upCreate := createMsg(3, 4)
 	upCreate.Upper = true
 	upSp := sp(adminID, 3, 2*M, true)
